@@ -27,7 +27,7 @@ MANIFEST = {
 GEN = ["OptDev", "Ppm"]
 MODELS = ["OptiVerif.Model.Link", "OptiVerif.Model.Modulators", "OptiVerif.Gen.OptDev"]
 RULE = ("cases = (bit pattern kind: random/PRBS/long runs/alternating/single 1/single 0, sps in {4,5,8,16,33,64}, slot rate, "
-        "pulse shape nrz/gaussian, MZM Vpi/loss/ER>=10 dB, launch power, PD r/R_load/BW>=0.7R, 1/2 polarisations, optional DM or "
+        "pulse shape nrz/gaussian, MZM Vpi/loss/ER>=10 dB, 13 (DAC bias, MZM bias) drive arrangements incl. negative biases and the inverting ones, launch power, PD r/R_load/BW>=0.7R, 1/2 polarisations, optional DM or "
         "linear FIBER with |beta2 L| < 1% T^2) plus ook.DSP on >=32 PRBS/random slots, ppm.DSP soft/hard for M in {2,4,8,16}, "
         "counter with k flipped bits; non-trivial = both symbols present and waveform longer than the filter padding")
 PARTIAL = ["ISI of the Bessel filter / dispersion stays below half the level gap: measured on the real code (oracle), not proved",
@@ -85,7 +85,7 @@ def gen_cases(rng, tier):
                               "r": rng.uniform(0.3, 1.0), "Rl": rng.choice([50.0, 100.0, 1e3]), "bw": rng.uniform(0.7, 1.5),
                               "prop": prop, "D": rng.uniform(-0.0099, 0.0099) * T2, "L": rng.uniform(1, 50),
                               "instant": None, "cphase": rng.choice([0.0, np.pi / 2, rng.uniform(-np.pi, np.pi)]),
-                              "detune": rng.random() < 0.3})
+                              "detune": rng.random() < 0.3, "drive": rng.choice(DRIVES) if rng.random() < 0.5 else DRIVES[0]})
     # short records: 3..9 slots, just longer than the 16-sample filter padding (pulse kernels longer than the record, both shapes)
     for _ in range(10 if tier == "quick" else 60):
         nb = rng.choice([3, 4, 5, 6, 7, 8, 9])
@@ -112,7 +112,8 @@ def gen_cases(rng, tier):
                 bits = [rng.randint(0, 1) for _ in range(nsym * k)]
                 cases.append({"kind": "ppm", "bits": bits, "M": M, "decision": dec, "sps": rng.choice([4, 5, 6, 7, 8, 9, 16, 33, 64]), "R": 1e9,
                               "Vpi": 3.5, "loss_dB": 3.0, "ER_dB": rng.choice([13.0, 30.0]), "P": 1e-3, "npol": rng.choice([1, 2]),
-                              "pol": "x", "r": 0.9, "Rl": 50.0, "bw": rng.uniform(0.75, 1.2), "seed": rng.getrandbits(31)})
+                              "pol": "x", "r": 0.9, "Rl": 50.0, "bw": rng.uniform(0.75, 1.2), "seed": rng.getrandbits(31),
+                              "drive": rng.choice(NONINV)})
     # ook.DSP (eye-based threshold): the whole statement range — low extinction ratios with a very clean eye included
     ook_grid = [(sps, shape, er, bw) for sps in (8, 16, 32, 33, 64) for shape in ("nrz", "gaussian")
                 for er in (10.0, 13.0, 20.0, 30.0) for bw in (0.7, 1.0, 1.5, 2.0)]
@@ -122,7 +123,8 @@ def gen_cases(rng, tier):
         kind = rng.choice(["random", "prbs"])
         cases.append({"kind": "ook", "bits": _bits(rng, kind, rng.choice([33, 45, 64, 127, 128, 254])), "pattern": kind, "sps": sps,
                       "R": rng.choice([1e9, 10e9]), "shape": shape, "Vpi": 3.5, "loss_dB": 3.0, "ER_dB": er, "P": 10 ** rng.uniform(-4, -2),
-                      "npol": rng.choice([1, 2]), "pol": "x", "r": 0.8, "Rl": 50.0, "bw": bw, "prop": "none", "seed": rng.getrandbits(31)})
+                      "npol": rng.choice([1, 2]), "pol": "x", "r": 0.8, "Rl": 50.0, "bw": bw, "prop": "none", "seed": rng.getrandbits(31),
+                      "drive": rng.choice(NONINV)})
     # two tributaries modulated onto the SAME two-polarisation carrier object (x then y, or y then x)
     for _ in range(3 if tier == "quick" else 20):
         sps = rng.choice([8, 9, 16, 32])
@@ -135,13 +137,18 @@ def gen_cases(rng, tier):
     for sps in (4, 5):
         for dec in ("soft", "hard"):
             for M in ([2, 4, 8, 16] if sps == 4 else [rng.choice([2, 4, 8, 16])]):
-                for shape, bw in ([("nrz", 0.7), ("gaussian", 0.7), ("nrz", 1.0), ("gaussian", 1.0)] if (sps == 4 and dec == "hard")
-                                  else [(rng.choice(["nrz", "gaussian"]), rng.choice([0.7, 0.9, 1.2]))]):
+                # wide detectors included: at 4/5 samples per slot no sample falls strictly inside the eye, GET_EYE falls back to
+                # the nominal slot centre and the estimated threshold must still come out finite
+                for shape, bw in ([("nrz", 0.7), ("gaussian", 0.7), ("nrz", 1.0), ("gaussian", 1.0), ("nrz", 1.5), ("gaussian", 1.9)]
+                                  if (sps == 4 and dec == "hard")
+                                  else [(rng.choice(["nrz", "gaussian"]), rng.choice([0.7, 0.9, 1.2, 1.5, 1.9])),
+                                        (rng.choice(["nrz", "gaussian"]), rng.choice([1.5, 1.9]))] if dec == "hard"
+                                  else [(rng.choice(["nrz", "gaussian"]), rng.choice([0.7, 0.9, 1.2, 1.9]))]):
                     k = M.bit_length() - 1
                     bits = [rng.randint(0, 1) for _ in range(48 * k)]
                     cases.append({"kind": "ppm", "bits": bits, "M": M, "decision": dec, "sps": sps, "R": rng.choice([1e9, 10e9]), "shape": shape,
                                   "Vpi": 3.5, "loss_dB": rng.choice([1.0, 3.0]), "ER_dB": rng.choice([20.0, 30.0]), "P": 1e-3, "npol": 1,
-                                  "pol": "x", "r": 0.9, "Rl": 50.0, "bw": bw, "seed": rng.getrandbits(31)})
+                                  "pol": "x", "r": 0.9, "Rl": 50.0, "bw": bw, "seed": rng.getrandbits(31), "drive": rng.choice(NONINV)})
     # weak received signals (-55 … -47 dBm launch) with the DEFAULT dark current: the pedestal i_dark*R_load sits in .noise and is
     # comparable to the swing; the packaged decisions must cope (they estimate the threshold from the received eye)
     for kind_, dec in (("ook", None), ("ook", None), ("ppm", "hard"), ("ppm", "hard"), ("ppm", "soft")):
@@ -195,10 +202,22 @@ def _levels(case):
     """analytic ON/OFF voltages: r * P * loss * (cos^2 g + k^2 sin^2 g) * R_load"""
     loss = 10 ** (-case["loss_dB"] / 10)
     k = 10 ** (-case["ER_dB"] / 20)
+    db, mb = _drive(case)
     def v(u):
-        g = np.pi * (u + case["Vpi"]) / (2 * case["Vpi"])      # MZM bias = Vpi: u = 0 -> extinction, u = Vpi -> transmission
+        g = np.pi * (u + db + mb) / (2 * case["Vpi"])      # default drive: DAC bias 0, MZM bias Vpi: u = 0 -> extinction, u = Vpi -> transmission
         return case["r"] * case["P"] * loss * (np.cos(g) ** 2 + k ** 2 * np.sin(g) ** 2) * case["Rl"]
     return float(v(0.0)), float(v(case["Vpi"]))
+
+
+# (DAC bias, MZM bias) in units of Vpi: every arrangement puts the two drive levels on an extinction and a transmission point
+# (the push-pull arrangement of the MZM docstring is (-1/2, +1/2): bit 1 -> extinction)
+NONINV = [(0.0, 1.0), (-0.5, 1.5), (0.5, 0.5), (-1.0, 2.0), (1.0, 0.0), (-1.0, 0.0), (-2.0, 1.0), (0.5, -1.5)]     # bit 1 -> light
+DRIVES = NONINV + [(-0.5, 0.5), (0.0, 0.0), (1.0, 1.0), (-1.5, -0.5), (-2.0, 2.0)]                              # bit 1 -> extinction
+
+
+def _drive(case):
+    a, b = case.get("drive", (0.0, 1.0))
+    return a * case["Vpi"], b * case["Vpi"]
 
 
 def _run_chain(case, bits, cw=None, pol=None):
@@ -206,7 +225,8 @@ def _run_chain(case, bits, cw=None, pol=None):
     from opticomlib.typing import gv, optical_signal
     import opticomlib.devices as dev
     n = len(bits) * case["sps"]
-    x = dev.DAC(bits, Vout=case["Vpi"], bias=0.0, pulse_shape="gaussian" if case.get("shape") == "gaussian" else "nrz")
+    db, mb = _drive(case)
+    x = dev.DAC(bits, Vout=case["Vpi"], bias=db, pulse_shape="gaussian" if case.get("shape") == "gaussian" else "nrz")
     amp = np.sqrt(case["P"])
     # the CW carrier is any constant-power field: a constant phase, or (without dispersion) a frequency offset of R/16
     car = np.full(n, amp, dtype=complex) * np.exp(1j * case.get("cphase", 0.0))
@@ -219,7 +239,7 @@ def _run_chain(case, bits, cw=None, pol=None):
     else:
         cw = optical_signal(np.array([car, car.copy()]))
     pol = pol or (case["pol"] if case["npol"] == 2 else "x")
-    y = dev.MZM(cw, x, bias=case["Vpi"], Vpi=case["Vpi"], loss_dB=case["loss_dB"], ER_dB=case["ER_dB"], pol=pol)
+    y = dev.MZM(cw, x, bias=mb, Vpi=case["Vpi"], loss_dB=case["loss_dB"], ER_dB=case["ER_dB"], pol=pol)
     if case.get("prop") == "dm":
         y = dev.DM(y, case["D"])
     elif case.get("prop") == "fiber":
@@ -358,8 +378,9 @@ def model_requests(case, res):
         return [f"link.errors {enc_list(case['tx'])} {enc_list(res['rx'])}"]
     if case["kind"] == "chain" and case["shape"] == "nrz":
         kpd = case["r"] * case["Rl"] * case["P"]
-        return [f"link.rx {enc_f(kpd)} {enc_f(case['loss_dB'])} {enc_f(case['ER_dB'])} {enc_f(case['Vpi'])} {enc_f(case['Vpi'])} "
-                f"{enc_f(case['Vpi'])} {enc_f(0.0)} {case['sps']} {enc_list(case['bits'])}"]
+        db, mb = _drive(case)
+        return [f"link.rx {enc_f(kpd)} {enc_f(case['loss_dB'])} {enc_f(case['ER_dB'])} {enc_f(case['Vpi'])} {enc_f(mb)} "
+                f"{enc_f(case['Vpi'])} {enc_f(db)} {case['sps']} {enc_list(case['bits'])}"]
     return []
 
 
@@ -446,7 +467,7 @@ def features(case, res):
     f = ["kind=" + case["kind"], "status=" + str(res.get("status"))]
     if case["kind"] == "chain":
         f += ["sps=%d" % case["sps"], "pattern=" + case["pattern"], "shape=" + case["shape"], "prop=" + case["prop"],
-              "npol=%d" % case["npol"]]
+              "npol=%d" % case["npol"], "drive=(%g,%g)Vpi" % tuple(case.get("drive", (0.0, 1.0)))]
         if res.get("status") == "ok":
             m = res["margin"]
             f.append("margin<0.25" if m < 0.25 else "margin<0.5" if m < 0.5 else "margin<0.75" if m < 0.75 else "margin<1" if m < 1 else "margin>=1")
@@ -464,4 +485,4 @@ def nontrivial_key(case, res):
         return ("counter", tuple(case["tx"]), tuple(case["flip"]), case["module"], case["form"]) if len(case["tx"]) > 1 else None
     if case["kind"] == "sweep":
         return ("sweep", repr(case["sps_seq"]), case["R"], case["shape"], case["seed"])
-    return (case["kind"], tuple(case["bits"]), case["sps"], case["R"], case.get("shape"), case.get("prop"), case["npol"], case["ER_dB"], case.get("M"), case.get("decision"))
+    return (case["kind"], tuple(case["bits"]), case["sps"], case["R"], case.get("shape"), case.get("prop"), case["npol"], case["ER_dB"], case.get("M"), case.get("decision"), tuple(case.get("drive", (0.0, 1.0))), case.get("bw"))
